@@ -15,7 +15,7 @@ RULE = ('grammar family: abstract target Shape over every non-empty ordered subs
         'builtin else "Unknown object", several -> "not unique". distinct = (variant, model shape); non-trivial = model has '
         'same-named objects of unrelated classes or a nested definition')
 REQUIRED = {'models': 300, 'references_resolved': 1500, 'unknown_object_errors': 30, 'not_unique_errors': 20,
-            'builtin_resolutions': 20, 'nonconforming_same_name': 100, 'grammar_variants': 10, 'list_references': 200, 'models_with_numeric_names': 100, 'models_with_falsy_builtins': 50}
+            'builtin_resolutions': 20, 'nonconforming_same_name': 100, 'grammar_variants': 10, 'list_references': 200, 'models_with_numeric_names': 100, 'models_with_falsy_builtins': 50, 'mixed_lists_starting_with_a_plain_value': 100}
 
 CONCRETE = ['Circle', 'Square', 'Wire']
 KW = {'Circle': 'circle', 'Square': 'square', 'Wire': 'wire', 'Other': 'other'}
@@ -31,7 +31,9 @@ def variants():
 
 def grammar(sub, numeric=False):
     g = '''
-Model: (defs+=Def | groups+=Group | refs+=Ref)*;
+Model: (defs+=Def | groups+=Group | refs+=Ref | mixed+=Mixed)*;
+Mixed: 'mixed' items+=MVal[','] ';';
+MVal: INT | STRING | Circle | Square | Wire | Other;
 Def: Shape | %s Other;
 Shape: %s;
 Circle: 'circle' name=ID;
@@ -127,6 +129,21 @@ def one(ctx, i, rep=None):
                 out += '%s %s ' % (KW[c], sp(n))
         return out
     body = gen_defs(0, [])
+    # lists that mix plain values and named objects (the list may start with a plain value)
+    for _ in range(r.choice([0, 0, 1, 2])):
+        elems = []
+        for _k in range(r.randint(1, 4)):
+            if r.random() < 0.5:
+                elems.append(r.choice(['7', '"s"', '0']))
+            else:
+                c = r.choice(CONCRETE + ['Other'])
+                n = r.choice(names)
+                defs.append((c, n, []))
+                elems.append('%s %s' % (KW[c], sp(n)))
+        body += ' mixed ' + ' , '.join(elems) + ' ; '
+        ctx.count('mixed_lists')
+        if not elems[0].split()[0] in KW.values():
+            ctx.count('mixed_lists_starting_with_a_plain_value')
     # make names unique per conforming set unless we want an ambiguity: drop exact duplicates (class, name)
     seen = set()
     dedup_body = body
@@ -225,6 +242,10 @@ def one(ctx, i, rep=None):
     def collect(container, path):
         for d in getattr(container, 'defs', []):
             objs.setdefault((type(d).__name__, logical(d.name), tuple(path)), []).append(d)
+        for mx in getattr(container, 'mixed', []):
+            for it in mx.items:
+                if hasattr(it, 'name') and not isinstance(it, (str, int)):
+                    objs.setdefault((type(it).__name__, logical(it.name), tuple(path)), []).append(it)
         for g in getattr(container, 'groups', []):
             collect(g, path + [g.name])
     collect(m, [])
